@@ -67,26 +67,33 @@ def _pack(lens):
         r['strv'] = sv
         return r
     fn = ctx.fn(PACK)
-    ws = bpa.analyse(mod, PACK, lambda: ([Ptr('arr', 0), Ptr('strv', 0), n], regions()), max_worlds=2, max_steps=6000000, gcache=ctx.gcache)
+    ws = bpa.analyse(mod, PACK, lambda: ([Ptr('arr', 0), Ptr('strv', 0), n], regions()), max_worlds=8, max_steps=3000000, gcache=ctx.gcache)
     desc = 'list of %d strings, lengths %s' % (n, lens if n <= 8 else '%s...' % lens[:6])
     key = 'pack:%s' % shape_key(lens)
     where = FC.fnloc(ctx, PACK)
-    if len(ws) != 1 or ws[0].status != 'ok':
-        return [('undecided', key, '%s [%s]: %s' % (where, desc, [w.reason for w in ws]))], 0
-    w = ws[0]
+    oks, err = FC.ok_worlds(ws)
+    if err:
+        return [('undecided', key, '%s [%s]: %s' % (where, desc, err))], 0
     out = []
     exp = []
     for k, l in enumerate(lens):
         exp.extend(V.be_bytes_of(l, 2))
         exp.extend(V.In('s%db' % k, i) for i in range(l))
-    st, text = V.compare_region(w.regions['packed'], exp)
-    if st != 'ok':
-        out.append((st, key + ':bytes', '%s [%s]: %s' % (where, desc, text)))
-    got = V.peek(mod, w.regions['arr'], 0, 2)
-    if got != (total & 0xffff):
-        out.append(('violation', key + ':total', '%s [%s]: records a total length of %r, the packed array has %d octets' % (where, desc, got, total)))
-    if w.oob:
-        out.append(('violation', key + ':extent', '%s [%s]: %s' % (where, desc, FC.fmt_oob(w.oob[0]))))
+    for w in oks:
+        with FC.with_world(w.decisions):
+            st, text = V.compare_region(w.regions['packed'], exp)
+            if st != 'ok':
+                out.append((st, key + ':bytes', '%s [%s]: %s' % (where, desc, text)))
+            got = V.peek(mod, w.regions['arr'], 0, 2)
+            stt, info = FC.compare_vec(got, total & 0xffff, 16)
+            if stt != 'eq':
+                out.append(('violation' if stt == 'differs' else 'undecided', key + ':total',
+                            '%s [%s]: records a total length of %s, the packed array has %d octets'
+                            % (where, desc, got if isinstance(got, int) else 'a symbolic value', total)))
+        if w.oob:
+            out.append(('violation', key + ':extent', '%s [%s]: %s' % (where, desc, FC.fmt_oob(w.oob[0]))))
+        if out:
+            break
     return out, (0 if out else 1)
 
 
@@ -110,13 +117,16 @@ def _count(lens):
         return {'arr': arr, 'packed': pk}
     fn = ctx.fn(COUNT)
     R = FC.ret_width(mod, fn)
-    ws = bpa.analyse(mod, COUNT, lambda: ([Ptr('arr', 0)], regions()), max_worlds=2, max_steps=6000000, gcache=ctx.gcache)
+    ws = bpa.analyse(mod, COUNT, lambda: ([Ptr('arr', 0)], regions()), max_worlds=8, max_steps=3000000, gcache=ctx.gcache)
     desc = 'packed array of %d strings' % n
     key = 'count:%s' % shape_key(lens)
     where = FC.fnloc(ctx, COUNT)
-    if len(ws) != 1 or ws[0].status != 'ok':
-        return [('undecided', key, '%s [%s]: %s' % (where, desc, [w.reason for w in ws]))], 0
-    w = ws[0]
+    oks, err = FC.ok_worlds(ws)
+    if err:
+        return [('undecided', key, '%s [%s]: %s' % (where, desc, err))], 0
+    if len(oks) != 1:
+        return [('undecided', key, '%s [%s]: counting forks into %d worlds' % (where, desc, len(oks)))], 0
+    w = oks[0]
     out = []
     if w.ret != n:
         if isinstance(w.ret, int) and w.ret == n % (1 << R) and n >= (1 << R):
@@ -158,11 +168,12 @@ def _unpack(t):
             r['d%d' % k] = d
         r['strv'] = sv
         return r
-    ws = bpa.analyse(mod, UNPACK, lambda: ([Ptr('arr', 0), Ptr('strv', 0), num], regions()), max_worlds=2, max_steps=6000000, gcache=ctx.gcache)
+    ws = bpa.analyse(mod, UNPACK, lambda: ([Ptr('arr', 0), Ptr('strv', 0), num], regions()), max_worlds=8, max_steps=3000000, gcache=ctx.gcache)
     desc = 'packed array of %d strings, %d requested%s' % (n, num, ', no destinations' if nulldst else '')
     key = 'unpack:%s:req%+d:%s' % (shape_key(lens), num - n, 'null' if nulldst else 'dst')
     where = FC.fnloc(ctx, UNPACK)
     out = []
+    ws = [x for x in ws if x.status != 'infeasible']
     if len(ws) != 1:
         return [('undecided', key, '%s [%s]: %d worlds' % (where, desc, len(ws)))], 0
     w = ws[0]
